@@ -5,7 +5,7 @@ use crate::gen::inl::gen_inl;
 use serde_json::json;
 
 pub fn run(ctx: &mut Ctx) {
-    let total = ctx.q(40000, 800000);
+    let total = ctx.q(160000, 1600000);
     ctx.cases("ginl", total, |ctx, idx| {
         let prog = gen_inl(&mut ctx.rng);
         ctx.count("programs", 1);
